@@ -274,6 +274,20 @@ func (f *Free) NumEvents() int {
 	return len(f.Events)
 }
 
+// AppendLocked appends an event from inside OnEvent (the log mutex is held by the caller).
+func (f *Free) AppendLocked(g int, point string, args ...interface{}) {
+	f.Events = append(f.Events, Event{Seq: len(f.Events), G: g, Point: point, Args: args})
+	f.passed[point]++
+	f.arrivals[point]++
+}
+
+// Snapshot returns a copy of the log.
+func (f *Free) Snapshot() []Event {
+	f.mu.Lock()
+	defer f.mu.Unlock()
+	return append([]Event{}, f.Events...)
+}
+
 // Handler is the verifhook handler of free mode.
 func (f *Free) Handler(point string, args ...interface{}) {
 	id := Goid()
